@@ -3,6 +3,7 @@ history, equality of claimed private keys, membership, pickling, bounded
 progress after a failed init."""
 from . import events as E
 from . import model as M
+from . import runner
 from .runner import REPLICA_KINDS, classify, event_group
 
 
@@ -15,13 +16,13 @@ def finish(W, run, trace, nodes, node):
     trace["pub"] = {}
     for nid in sorted(nodes):
         n = nodes[nid]
-        d = n.call("digest", "public", E.PUBLIC_GROUPS, W.canon_hashes, False)
+        d = n.call("digest", "public", runner.stable_groups(), W.canon_hashes, False)
         trace["pub"][nid] = d
         pub_h = {g: h for g, (h, _) in d.items()}
         for t, tn in sorted(claims.tables.items()):
             if tn != nid:
                 continue
-            groups = claims.claimed(t)
+            groups = [g for g in claims.claimed(t) if g not in runner.UNSTABLE]
             if not groups:
                 trace["tables"][t] = {"claimed": [], "digest": {}, "pub_detail": {}}
                 continue
@@ -51,9 +52,9 @@ def counterfactual(W, run):
 def finish_cf(W, run, trace, nodes, node):
     trace["pub"] = {}
     for nid in sorted(nodes):
-        trace["pub"][nid] = nodes[nid].call("digest", "public", E.PUBLIC_GROUPS, W.canon_hashes, False)
+        trace["pub"][nid] = nodes[nid].call("digest", "public", runner.stable_groups(), W.canon_hashes, False)
     if 0 not in trace["pub"]:
-        trace["pub"][0] = node(0).call("digest", "public", E.PUBLIC_GROUPS, W.canon_hashes, False)
+        trace["pub"][0] = node(0).call("digest", "public", runner.stable_groups(), W.canon_hashes, False)
     trace["digest"] = trace["pub"][0]
 
 
